@@ -5,6 +5,7 @@ cd "$(dirname "$0")"
 export CARGO_NET_OFFLINE=true
 python3 tools/extract_consts.py >/dev/null
 python3 tools/extract_layouts.py >/dev/null
+python3 tools/extract_funcs.py >/dev/null
 (cd lean && lake build JubakoModel jbkmodel)
 (cd harness && RUSTFLAGS="--cfg jubako_verif" CARGO_TARGET_DIR="$PWD/target" cargo build --offline --bin jbkverif)
 (cd harness && RUSTFLAGS="--cfg jubako_verif" CARGO_TARGET_DIR="$PWD/target" cargo build --offline --release --bin jbkverif)
